@@ -111,6 +111,14 @@ func RandRec(r *rand.Rand, format string, i int, hostile bool, maxLen int) SeqRe
 	rec.Seq = string(seq)
 	switch format {
 	case "fasta", "fastq":
+		if r.Intn(8) == 0 {
+			// the other symbols the FASTA / FASTQ parsers accept in a sequence: gaps and brackets
+			b := []byte(rec.Seq)
+			for n := 1 + r.Intn(3); n > 0; n-- {
+				b[r.Intn(len(b))] = "-.[]"[r.Intn(4)]
+			}
+			rec.Seq = string(b)
+		}
 		k := r.Intn(4)
 		if !hostile && k == 2 {
 			k = 1
